@@ -98,7 +98,8 @@ pub fn copy_case(rootfd: i32, c: &Value) -> Value {
         return v;
     }
     let n = std::cmp::min(r as usize, total);
-    json!({"ok": true, "ret": r, "copied": String::from_utf8_lossy(&mem[pad..pad + n]), "ncopied_region": n,
+    let hex: String = mem[pad..pad + n].iter().map(|b| format!("{:02x}", b)).collect();
+    json!({"ok": true, "ret": r, "copied": String::from_utf8_lossy(&mem[pad..pad + n]), "copied_hex": hex, "ncopied_region": n,
            "tail_untouched": mem[pad + n..pad + total].iter().all(|x| *x == 0xA5),
            "canary_ok": mem[..pad].iter().all(|x| *x == 0xA5) && mem[pad + total..].iter().all(|x| *x == 0xA5)})
 }
